@@ -26,6 +26,11 @@ class Unknown(SxControl):
     """solver returned unknown / budget exceeded: the case is inconclusive"""
 
 
+class Unrealisable(SxControl):
+    """replay only: the harness could not construct a concrete input matching the solver model within its budget
+    (e.g. a real key pair whose public key has three given bytes); the counterexample stays unconfirmed"""
+
+
 class ReplayMismatch(SxControl):
     pass
 
@@ -71,6 +76,7 @@ class Ctx:
         self.vars = {}                 # name -> (kind, term, extra)
         self.notes = []                # free-form per path notes (go to samples)
         self.fresh = 0
+        self.selects = {}              # array name -> [(index term, select term)] of named input blobs
         self.symbolic = True
         self._grp = {}                 # union-find parent: var key -> var key
         self._cons = {}                # root var key -> list of constraints
@@ -290,6 +296,15 @@ class Ctx:
             elif kind == "blob":
                 ln = model.eval(extra, model_completion=True).as_long()
                 out[name] = {"blob_len": ln}
+        for name, sel in self.selects.items():
+            d = {}
+            for idx, t in sel:
+                i = model.eval(idx, model_completion=True)
+                v = model.eval(t, model_completion=True)
+                if z3.is_int_value(i) and z3.is_int_value(v):
+                    d[str(i.as_long())] = v.as_long()
+            if d:
+                out[name] = d
         return out
 
 
@@ -791,12 +806,21 @@ def _alarm(signum, frame):
 _PROXY_NAMES = ("SymSeq", "SymInt", "SymBool", "SymReal", "SymStr", "SymChar", "ZStr", "ZBytes", "NumStr", "'Gen'", "SymKey", "Piece")
 
 
+def _all_proxy_names():
+    out, todo = set(_PROXY_NAMES), [Sym]
+    while todo:
+        k = todo.pop()
+        out.add("'%s'" % k.__name__)
+        todo.extend(k.__subclasses__())
+    return out
+
+
 def _proxy_leak(e):
     """an exception raised because a proxy value reached C-level code is an engine limitation, not behaviour of the code under test"""
     if not isinstance(e, (TypeError, AttributeError, ValueError)):
         return False
     m = str(e)
-    return any(n in m for n in _PROXY_NAMES)
+    return any(n in m for n in _all_proxy_names())
 
 
 def explore(fn, max_paths=20000, timeout_s=None, want_samples=True, expected=()):
@@ -921,6 +945,8 @@ def run_concrete(fn, values, expected=()):
                 out["failed"].append(label)
     except Infeasible:
         out["infeasible"] = True
+    except Unrealisable as e:
+        out["unrealisable"] = str(e)
     except Exception as e:
         if expected and isinstance(e, expected):
             pass
